@@ -232,6 +232,9 @@ class C16Engine(Engine):
             await settle()
 
         _, out, err, error = run_in_fresh_loop(main)
+        if error and error.startswith("LIB:"):
+            fail("library/undocumented-exception-escaped", error[4:])
+            error = None
         if out or err:
             fail("io/printed-on-server-stdio", (out + err)[:200])
         return {"violations": viol, "labels": labels, "stats": {}, "inconclusive": None, "error": error}
